@@ -327,8 +327,8 @@ func bpProve(key []byte, nbits int) string {
 		}
 	}
 
-	// mutated roots: every single bit
-	for i := 0; i < 8*len(root); i++ {
+	// mutated roots: every single bit (a sample of nbits of them when nbits < 256)
+	for _, i := range samplePositions(8*len(root), nbits, append([]byte{0xfe}, key...)) {
 		nmut++
 		if bpVerify(proof, flipBit(root, i), key, want, !present) {
 			return fmt.Sprintf("VIOL:bp-unsound proof for key %s verifies against a root with bit %d flipped", kit.Hex(key), i)
